@@ -21,6 +21,8 @@ import (
 	"github.com/ipfs/go-unixfsnode/file"
 	"github.com/ipfs/go-unixfsnode/hamt"
 	"github.com/ipld/go-ipld-prime"
+	"github.com/ipld/go-ipld-prime/datamodel"
+	"github.com/ipld/go-ipld-prime/node/basicnode"
 	"github.com/multiformats/go-multihash"
 
 	"verifharness/gen"
@@ -507,6 +509,117 @@ func TestC17(t *testing.T) {
 						c.Violation("C17|result-differs|damaged-dir", "%s, %d goroutines, round %d: %s", damage, G, round, dmsg)
 					}
 					c.Sig(fmt.Sprintf("damaged-dir|%s|G%d|%s", damage, G, hs.hash()), hs.maxSeen >= 2)
+					if len(res.diffs) > 0 {
+						return
+					}
+				}
+			})
+		}
+	}
+	// plain (unsharded) directories are reified nodes as well: cold node per round, lookups through
+	// every entry point, listing and Length
+	for _, n := range []int{70, 400, 2500} {
+		for _, G := range []int{2, 8, 16} {
+			n, G := n, G
+			r.Case(fmt.Sprintf("plain-dir/n%d/G%d", n, G), map[string]any{"entries": n, "goroutines": G, "rounds": rounds}, func(c *mon.Case) {
+				st := store.New()
+				names := namesFor(c, dirCase{Family: "ascii", N: n})
+				entries, model, _ := childEntries(st, names)
+				l, _, err := builder.BuildUnixFSDirectory(entries, st.LinkSystem(false))
+				if err != nil {
+					c.Harness("build: %v", err)
+					return
+				}
+				ls := st.LinkSystem(true)
+				raw, err := loadRaw(ls, linkCid(l))
+				if err != nil {
+					c.Harness("load: %v", err)
+					return
+				}
+				for round := 0; round < rounds; round++ {
+					hs := &hookState{seed: c.Seed + uint64(round)}
+					node, err := reify(ls, raw)
+					if err != nil || node.Kind() != datamodel.Kind_Map {
+						c.Violation("C17|reify", "plain directory: %v", err)
+						return
+					}
+					if _, sharded := node.(interface{ FieldFanout() }); sharded {
+						return
+					}
+					res := runRound(c, node, G, hs, int64(c.Seed)+int64(round), func(g int, rr *rand.Rand, node ipld.Node, res *c17Result) {
+						for i := 0; i < 30; i++ {
+							atomic.AddInt64(&res.ops, 1)
+							name := names[rr.Intn(len(names))]
+							switch op := rr.Intn(12); {
+							case op < 7:
+								var v ipld.Node
+								var err error
+								switch op % 3 {
+								case 0:
+									v, err = node.LookupByString(name)
+								case 1:
+									v, err = node.LookupByNode(basicnode.NewString(name))
+								default:
+									v, err = node.LookupBySegment(datamodel.PathSegmentOfString(name))
+								}
+								if err != nil {
+									res.diff("lookup of member %q failed on the shared node: %v", name, err)
+									continue
+								}
+								if got, e := asCid(v); e != nil || !got.Equals(model[name]) {
+									res.diff("lookup of %q gives %v on the shared node, %v alone", name, got, model[name])
+								}
+							case op < 9:
+								if _, err := node.LookupByString(name + "\x00~not-a-member"); err == nil || !isNotFound(err) {
+									res.diff("lookup of a non-member gives %v on the shared node", err)
+								}
+							case op == 9:
+								if nl, ok := node.(nativeLookup); ok {
+									if lk := nl.Lookup(pbString(name)); lk == nil || !linkCid(lk.Link()).Equals(model[name]) {
+										res.diff("native Lookup(%q) gives %v on the shared node", name, lk)
+									}
+								}
+							case op == 10:
+								if got := node.Length(); got != int64(len(names)) {
+									res.diff("Length() = %d on the shared node, %d alone", got, len(names))
+								}
+							default:
+								it := node.MapIterator()
+								cnt := 0
+								for !it.Done() {
+									k, v, err := it.Next()
+									if err != nil {
+										res.diff("listing error on the shared node: %v", err)
+										break
+									}
+									ks, _ := k.AsString()
+									if got, _ := asCid(v); !got.Equals(model[ks]) {
+										res.diff("listing yields %q -> %v on the shared node", ks, got)
+										break
+									}
+									cnt++
+								}
+								if cnt != len(names) {
+									res.diff("listing yields %d entries on the shared node, %d alone", cnt, len(names))
+								}
+							}
+						}
+					})
+					c.Count("rounds", 1)
+					c.Count("ops_compared", res.ops)
+					c.Count("overlapped_rounds", 1)
+					if res.stuck {
+						c.Inconclusive("round %d did not finish within the watchdog and is not a provable deadlock", round)
+						return
+					}
+					if res.deadlock {
+						c.Violation("C17|deadlock|"+res.deadSite, "plain directory of %d entries, %d goroutines, round %d: %s", n, G, round, res.deadMsg)
+						return
+					}
+					for _, dmsg := range res.diffs {
+						c.Violation("C17|result-differs|plain-dir", "%d entries, %d goroutines, round %d: %s", n, G, round, dmsg)
+					}
+					c.Sig(fmt.Sprintf("plain-dir|n%d|G%d", n, G), true)
 					if len(res.diffs) > 0 {
 						return
 					}
